@@ -123,7 +123,7 @@ class TDict(Ty):
 
 # Net = IPv4Network abstract value (network address as integer 0..2^32-1, prefix length 0..32)
 Net = z3.Datatype("Net")
-Net.declare("mk_net", ("addr", z3.IntSort()), ("plen", z3.IntSort()))
+Net.declare("mk_net", ("addr", z3.BitVecSort(64)), ("plen", z3.IntSort()))
 Net = Net.create()
 
 
@@ -290,7 +290,7 @@ def type_constraints(v) -> list:
 
 
 def wf_net(t):
-    return z3.And(Net.plen(t) >= 0, Net.plen(t) <= 32, Net.addr(t) >= 0, Net.addr(t) < 2 ** 32)
+    return z3.And(Net.plen(t) >= 0, Net.plen(t) <= 32, z3.ULE(Net.addr(t), 0xFFFFFFFF))
 
 
 def type_of(v) -> Ty:
@@ -356,7 +356,7 @@ def default_term(ty):
     if ty is TStr:
         return z3.StringVal("")
     if ty is TNet:
-        return Net.mk_net(0, 0)
+        return Net.mk_net(z3.BitVecVal(0, 64), 0)
     raise Unsupported(f"default_term({ty})")
 
 
